@@ -346,12 +346,25 @@ theorem separated_empty (src dst : Shape) (back fwd : PtTr) (pps : Nat) (pad : I
   have e := fromPoints_separated (srcSamples dst back pps) src.1 src.2 pad hs.1 hs.2 h
   simp only [srcSamples] at e
   simp only [relativeRois]
+  have ee : ROI.isEmpty emptyROI = true := by decide
   cases al with
-  | none => simp [e]
+  | none =>
+    generalize fromPoints ((roiBoundary (⟨0, dst.1⟩, ⟨0, dst.2⟩) pps).map back) src.1 src.2 pad none = Rn at e ⊢
+    have c : ¬ ((none : Option Int).isSome = true ∧ ¬ ROI.isEmpty Rn = true ∧ ROI.isEmpty Rn = true) := by
+      rintro ⟨h1, _⟩; simp at h1
+    rw [if_neg c, if_pos e]
+    exact ⟨e, rfl⟩
   | some a =>
-    by_cases h0 : ROI.isEmpty (fromPoints ((roiBoundary (⟨0, dst.1⟩, ⟨0, dst.2⟩) pps).map back) src.1 src.2 pad (some a)) = true
-    · simp [e, h0]
-    · simp [e, h0, emptyROI, ROI.isEmpty]
+    generalize fromPoints ((roiBoundary (⟨0, dst.1⟩, ⟨0, dst.2⟩) pps).map back) src.1 src.2 pad none = Rn at e ⊢
+    generalize fromPoints ((roiBoundary (⟨0, dst.1⟩, ⟨0, dst.2⟩) pps).map back) src.1 src.2 pad (some a) = R0
+    by_cases h0 : ROI.isEmpty R0 = true
+    · have c : ¬ ((some a).isSome = true ∧ ¬ ROI.isEmpty R0 = true ∧ ROI.isEmpty Rn = true) := by
+        rintro ⟨_, h2, _⟩; exact h2 h0
+      rw [if_neg c, if_pos h0]
+      exact ⟨h0, rfl⟩
+    · have c : ((some a).isSome = true ∧ ¬ ROI.isEmpty R0 = true ∧ ROI.isEmpty Rn = true) := ⟨rfl, h0, e⟩
+      rw [if_pos c, if_pos ee]
+      exact ⟨ee, rfl⟩
 
 /-- Affine instance: all four corner images of the destination rectangle beyond the padded
 source image on one side ⇒ both regions have zero area. -/
@@ -394,75 +407,259 @@ theorem scale_is_min_ratio (A : Aff) (n : Rat) (hb : A.b = 0) (hd : A.d = 0) (hn
 
 /-- The read-shrink factor is a positive integer. -/
 theorem read_shrink_pos_int (scale tol : Rat) (rs : Int) (h : pickReadScale scale tol = .ok rs) : 1 ≤ rs := by
-  unfold pickReadScale at h
-  split_ifs at h with c1 c2
-  · simp only [Except.ok.injEq] at h; omega
-  · simp only [Except.ok.injEq] at h
-    have hs : 1 ≤ scale := not_lt.mp c2
-    have hfl : 1 ≤ scale.floor := by rw [Rat.le_floor_iff]; exact_mod_cast hs
-    subst h
-    simp only [maybeInt, splitFloat_nonneg scale (by linarith)]
-    split_ifs with c3 c4 c5
-    · have : (scale.floor : Rat) + 1 = ((scale.floor + 1 : Int) : Rat) := by push_cast; ring
-      rw [this, trunc_nonneg _ (by exact_mod_cast (by omega : (0 : Int) ≤ scale.floor + 1)), floor_intCast']
-      omega
-    · rw [trunc_nonneg _ (by linarith)]; exact hfl
-    · rw [trunc_nonneg _ (by exact_mod_cast (by omega : (0 : Int) ≤ scale.floor)), floor_intCast']
-      exact hfl
-    · rw [trunc_nonneg _ (by linarith)]; exact hfl
+  rcases pickReadScale_cases scale tol rs h with ⟨_, rfl⟩ | ⟨hs, k⟩
+  · exact le_refl _
+  · have hfl : 1 ≤ scale.floor := by rw [Rat.le_floor_iff]; exact_mod_cast hs
+    rcases k with rfl | ⟨rfl, _⟩ <;> omega
 
-/-- The read-shrink factor never exceeds the scale by `tol` or more (and is 1 for scales
-below 1), and is more than `scale - 1`: it is `⌊scale⌋`, or the next integer when the scale is
-within `tol` below it. -/
+/-- The read-shrink factor is `1` for scales below 1, otherwise `⌊scale⌋`, or the next integer
+when the scale is less than `tol` below it: it exceeds the scale by less than the tolerance
+(if at all) and is more than `scale - 1`. -/
 theorem read_shrink_bound (scale tol : Rat) (rs : Int) (h : pickReadScale scale tol = .ok rs) :
-    ((rs : Rat) ≤ 1 ∨ (rs : Rat) < scale + tol) ∧ (rs : Rat) ≤ max 1 (max scale (scale + tol)) ∧ scale - 1 < rs := by
-  unfold pickReadScale at h
-  split_ifs at h with c1 c2
+    ((rs : Rat) ≤ max 1 scale ∨ (rs : Rat) - scale < tol) ∧ scale - 1 < rs := by
+  have f1 := Rat.floor_le scale
+  have f2 : scale < (scale.floor : Rat) + 1 := by
+    have := Rat.lt_floor_add_one scale; push_cast at this; exact this
+  rcases pickReadScale_cases scale tol rs h with ⟨hs, rfl⟩ | ⟨hs, k⟩
+  · exact ⟨Or.inl (by simp), by push_cast; linarith⟩
+  · rcases k with rfl | ⟨rfl, k2, k3⟩
+    · exact ⟨Or.inl (le_trans f1 (le_max_right _ _)), by linarith⟩
+    · have : scale - scale.floor - 1 < 0 := by linarith
+      have k2' : -(scale - scale.floor - 1) < tol := by simpa [rabs, this] using k2
+      refine ⟨Or.inr (by push_cast; linarith), by push_cast; linarith⟩
+
+/-- `_pick_read_scale` fails (assert) exactly for non-positive scales. -/
+theorem read_shrink_error_iff (scale tol : Rat) : (∃ e, pickReadScale scale tol = .error e) ↔ scale ≤ 0 := by
+  unfold pickReadScale
+  constructor
+  · rintro ⟨e, h⟩
+    by_contra hc
+    have : scale > 0 := not_le.mp hc
+    simp only [this, not_true_eq_false, if_false] at h
+    split_ifs at h
+  · intro h
+    exact ⟨.assertion, by simp [not_lt.mpr h]⟩
+
+
+/-! ## paste path: a true transform within half a pixel of the snapped one -/
+
+/-- **Coverage on the paste path.**  The snapped axis transform has `s = ±1` and an integer
+offset `t`.  If the *true* source coordinate `y` of the centre of destination pixel `d` is
+within half a pixel of the snapped one and inside the source image, then `d` is in the
+destination region and `⌊y⌋` in the source region.  (For a true transform
+`y = ±(1+δ)(d+½) + t + ε` the hypothesis holds whenever `|δ|·Nd + |ε| < ½`; without such a
+bound it fails, see `paste_drift_cex`.) -/
+theorem axis_covers_near (Ns Nd : Int) (s : Rat) (t : Int) (hs : s = 1 ∨ s = -1) (r : NSlice × NSlice)
+    (h : axisOverlap Ns Nd s t = .ok r) (d : Int) (hd0 : 0 ≤ d) (hdN : d < Nd) (y : Rat)
+    (hnear : rabs (y - (s * ((d : Rat) + 1 / 2) + t)) < 1 / 2) (hy0 : 0 ≤ y) (hyN : y < Ns) :
+    (r.2.start ≤ d ∧ d < r.2.stop) ∧ (r.1.start ≤ y.floor ∧ y.floor < r.1.stop) ∧
+    y.floor = (s * ((d : Rat) + 1 / 2) + t).floor := by
+  -- the snapped centre is `m + ½` for an integer `m`
+  obtain ⟨m, hm⟩ : ∃ m : Int, s * ((d : Rat) + 1 / 2) + t = (m : Rat) + 1 / 2 := by
+    rcases hs with rfl | rfl
+    · exact ⟨d + t, by push_cast; ring⟩
+    · exact ⟨-d - 1 + t, by push_cast; ring⟩
+  rw [hm] at hnear
+  have hn : -(1 / 2) < y - ((m : Rat) + 1 / 2) ∧ y - ((m : Rat) + 1 / 2) < 1 / 2 := by
+    unfold rabs at hnear
+    split_ifs at hnear with c <;> constructor <;> linarith
+  have hfy : y.floor = m := by
+    apply le_antisymm
+    · have := Rat.floor_le y
+      have : (y.floor : Rat) < (m : Rat) + 1 := by linarith
+      have : y.floor < m + 1 := by exact_mod_cast this
+      omega
+    · rw [Rat.le_floor_iff]; linarith
+  have hfm : ((m : Rat) + 1 / 2).floor = m := by
+    apply le_antisymm
+    · have := Rat.floor_le ((m : Rat) + 1 / 2)
+      have : ((((m : Rat) + 1 / 2).floor : Int) : Rat) < (m : Rat) + 1 := by linarith
+      have : ((m : Rat) + 1 / 2).floor < m + 1 := by exact_mod_cast this
+      omega
+    · rw [Rat.le_floor_iff]; linarith
+  have hm0 : (0 : Rat) ≤ (m : Rat) + 1 / 2 := by
+    have : (-1 : Rat) < m := by linarith
+    have : (-1 : Int) < m := by exact_mod_cast this
+    have : (0 : Rat) ≤ m := by exact_mod_cast (by omega : (0 : Int) ≤ m)
+    linarith
+  have hmN : (m : Rat) + 1 / 2 < Ns := by
+    have : (m : Rat) < Ns := by linarith
+    have : m < Ns := by exact_mod_cast this
+    have : (m : Rat) + 1 ≤ Ns := by exact_mod_cast (by omega : m + 1 ≤ Ns)
+    linarith
+  have c1 := axis_dst_covers Ns Nd s t r h d hd0 hdN (by rw [hm]; exact hm0) (by rw [hm]; exact hmN)
+  have c2 := axis_src_covers Ns Nd s t r h d hd0 hdN (by rw [hm]; exact hm0) (by rw [hm]; exact hmN)
+  rw [hm, hfm] at c2
+  rw [hm, hfm, hfy]
+  exact ⟨c1, c2, rfl⟩
+
+/-- Counterexample to coverage on the paste path *without* the half-pixel bound: the true
+x-scale `2047/2048` (within `stol = 1e-3` of 1, so it is snapped to 1), 4096-pixel source,
+4100-pixel destination.  The snapped plan ends the destination region at 4096, yet the centre
+of destination pixel 4097 maps to `≈ 4095.499` inside the source image.  (Replayed on the real
+code by the harness: known finding `paste-scale-drift-dst-pixel-dropped`.) -/
+theorem paste_drift_cex :
+    (axisOverlap 4096 4100 1 0 = .ok (⟨0, 4096⟩, ⟨0, 4096⟩)) ∧
+    (0 ≤ (2047 / 2048 : Rat) * ((4097 : Rat) + 1 / 2) + 0 ∧ (2047 / 2048 : Rat) * ((4097 : Rat) + 1 / 2) + 0 < 4096) ∧
+    ¬ ((4097 : Int) < 4096) := by
+  refine ⟨by decide +kernel, by norm_num, by decide⟩
+
+/-! ## the whole plan: `compute_reproject_roi`, same-CRS branch -/
+
+/-- Scale and read-shrink claims of the plan. -/
+theorem plan_scale (src dst : Shape) (fwd A : Aff) (n ttol stol : Rat) (padding align : Option Int) (p : Plan)
+    (h : reprojectLinear src dst fwd A n ttol stol padding align = .ok p) :
+    p.scale2 = scale2 A n ∧ p.scale = min p.scale2.1 p.scale2.2 ∧ 1 ≤ p.readShrink ∧
+    (((p.readShrink : Rat) ≤ max 1 p.scale ∨ (p.readShrink : Rat) - p.scale < tol1em3) ∧ p.scale - 1 < p.readShrink) := by
+  obtain ⟨h1, h2, h3, _⟩ := reprojectLinear_cases h
+  rw [h3, h2]
+  exact ⟨rfl, rfl, read_shrink_pos_int _ _ _ h1, read_shrink_bound _ _ _ h1⟩
+
+/-- **Within.**  The destination region lies in the destination image; the source region lies in
+the source image, except on the overview path (`paste_ok`, read-shrink `k > 1`), where it is `k`
+times a region of the `k`-fold overview and so may extend to the next multiple of `k`:
+its stop is at most `⌈N/k⌉·k < N + k`. -/
+theorem plan_within (src dst : Shape) (fwd A : Aff) (n ttol stol : Rat) (padding align : Option Int) (p : Plan)
+    (hs : 1 ≤ src.1 ∧ 1 ≤ src.2) (hd : 0 ≤ dst.1 ∧ 0 ≤ dst.2)
+    (h : reprojectLinear src dst fwd A n ttol stol padding align = .ok p) :
+    ((0 ≤ p.roiDst.1.start ∧ p.roiDst.1.stop ≤ dst.1) ∧ (0 ≤ p.roiDst.2.start ∧ p.roiDst.2.stop ≤ dst.2)) ∧
+    (0 ≤ p.roiSrc.1.start ∧ 0 ≤ p.roiSrc.2.start) ∧
+    ((p.pasteOk = false ∨ p.readShrink = 1) → p.roiSrc.1.stop ≤ src.1 ∧ p.roiSrc.2.stop ≤ src.2) ∧
+    (p.roiSrc.1.stop ≤ zoomOutDim src.1 p.readShrink * p.readShrink ∧ zoomOutDim src.1 p.readShrink * p.readShrink < src.1 + p.readShrink) ∧
+    (p.roiSrc.2.stop ≤ zoomOutDim src.2 p.readShrink * p.readShrink ∧ zoomOutDim src.2 p.readShrink * p.readShrink < src.2 + p.readShrink) := by
+  obtain ⟨h1, _, _, hc⟩ := reprojectLinear_cases h
+  have hrs := read_shrink_pos_int _ _ _ h1
+  have z1 := zoomOutDim_spec src.1 p.readShrink hs.1 hrs
+  have z2 := zoomOutDim_spec src.2 p.readShrink hs.2 hrs
+  rcases hc with ⟨hp, hr⟩ | ⟨hp, _, _, _, hr⟩
+  · have w := relative_within src dst (linTr A) (linTr fwd) 2 (padOr1 padding) (normAlign align)
+      ⟨by omega, by omega⟩ hd
+    rw [← hr] at w
+    simp only at w
+    refine ⟨w.2, ⟨w.1.1.1, w.1.2.1⟩, fun _ => ⟨w.1.1.2, w.1.2.2⟩, ⟨by omega, z1.2⟩, ⟨by omega, z2.2⟩⟩
+  · rcases hr with ⟨hr1, hb⟩ | ⟨hr1, r', hb, hsrc⟩
+    · have w := box_within src dst _ ⟨by omega, by omega⟩ hd _ hb
+      simp only at w
+      refine ⟨⟨⟨w.2.1.1, w.2.1.2.2⟩, ⟨w.2.2.1, w.2.2.2.2⟩⟩, ⟨w.1.1.1, w.1.2.1⟩, fun _ => ⟨w.1.1.2.2, w.1.2.2.2⟩,
+        ⟨by omega, z1.2⟩, ⟨by omega, z2.2⟩⟩
+    · have w := box_within (zoomOutDim src.1 p.readShrink, zoomOutDim src.2 p.readShrink) dst _
+        ⟨by simp only [zoomOutDim]; omega, by simp only [zoomOutDim]; omega⟩ hd _ hb
+      simp only at w
+      have e1 : p.roiSrc.1 = ⟨r'.1.start * p.readShrink, r'.1.stop * p.readShrink⟩ := by
+        rw [hsrc]; simp [scaledUpROI, scaledUpSlice]
+      have e2 : p.roiSrc.2 = ⟨r'.2.start * p.readShrink, r'.2.stop * p.readShrink⟩ := by
+        rw [hsrc]; simp [scaledUpROI, scaledUpSlice]
+      have hk : 0 ≤ p.readShrink := by omega
+      refine ⟨⟨⟨w.2.1.1, w.2.1.2.2⟩, ⟨w.2.2.1, w.2.2.2.2⟩⟩, ?_, ?_, ⟨?_, z1.2⟩, ⟨?_, z2.2⟩⟩
+      · rw [e1, e2]; exact ⟨Int.mul_nonneg w.1.1.1 hk, Int.mul_nonneg w.1.2.1 hk⟩
+      · rintro (hf | h1')
+        · rw [hp] at hf; exact absurd hf (by simp)
+        · exact absurd h1' hr1
+      · rw [e1]; exact Int.mul_le_mul_of_nonneg_right w.1.1.2.2 hk
+      · rw [e2]; exact Int.mul_le_mul_of_nonneg_right w.1.2.2.2 hk
+
+/-- **Coverage of the plan when pasting is not possible** (rotation, shear, fractional scale,
+sub-pixel shift, or padding/alignment requested): for the true transform `A` (with inverse
+`fwd`) every destination pixel whose centre maps inside the source lies in `roi_dst` and the
+source pixel it maps to in `roi_src`. -/
+theorem plan_nonpaste_covers (src dst : Shape) (fwd A : Aff) (n ttol stol : Rat) (padding align : Option Int)
+    (p : Plan) (h : reprojectLinear src dst fwd A n ttol stol padding align = .ok p) (hnp : p.pasteOk = false)
+    (hdet : A.det ≠ 0) (hinv : ∀ q, fwd.apply (A.apply q) = q)
+    (hpad : ∀ k, padding = some k → 0 ≤ k) (hal : ∀ a, align = some a → 0 ≤ a)
+    (dy dx : Int) (hdy : 0 ≤ dy ∧ dy < dst.1) (hdx : 0 ≤ dx ∧ dx < dst.2)
+    (hqx : 0 ≤ (A.apply ((dx : Rat) + 1 / 2, (dy : Rat) + 1 / 2)).1 ∧
+           (A.apply ((dx : Rat) + 1 / 2, (dy : Rat) + 1 / 2)).1 < src.2)
+    (hqy : 0 ≤ (A.apply ((dx : Rat) + 1 / 2, (dy : Rat) + 1 / 2)).2 ∧
+           (A.apply ((dx : Rat) + 1 / 2, (dy : Rat) + 1 / 2)).2 < src.1) :
+    (p.roiDst.1.start ≤ dy ∧ dy < p.roiDst.1.stop) ∧ (p.roiDst.2.start ≤ dx ∧ dx < p.roiDst.2.stop) ∧
+    (p.roiSrc.2.start ≤ (A.apply ((dx : Rat) + 1 / 2, (dy : Rat) + 1 / 2)).1.floor ∧
+      (A.apply ((dx : Rat) + 1 / 2, (dy : Rat) + 1 / 2)).1.floor < p.roiSrc.2.stop) ∧
+    (p.roiSrc.1.start ≤ (A.apply ((dx : Rat) + 1 / 2, (dy : Rat) + 1 / 2)).2.floor ∧
+      (A.apply ((dx : Rat) + 1 / 2, (dy : Rat) + 1 / 2)).2.floor < p.roiSrc.1.stop) := by
+  obtain ⟨_, _, _, hc⟩ := reprojectLinear_cases h
+  rcases hc with ⟨_, hr⟩ | ⟨hp, _⟩
+  · have hpad' : 0 ≤ padOr1 padding := by
+      cases padding with
+      | none => simp [padOr1]
+      | some k => exact hpad k rfl
+    have hal' : ∀ a, normAlign align = some a → 0 < a := by
+      intro a ha
+      unfold normAlign at ha
+      split_ifs at ha with c
+      have := hal a ha
+      rcases lt_or_eq_of_le this with h' | h'
+      · exact h'
+      · exact absurd (by rw [ha, ← h']) c
+    have c := linear_covers src dst A fwd hdet hinv (padOr1 padding) hpad' (normAlign align) hal' dy dx hdy hdx hqx hqy
+    rw [← hr] at c
+    exact c
+  · rw [hp] at hnp; exact absurd hnp (by simp)
+
+/-- Separated footprints on the padded path of the plan ⇒ both regions have zero area. -/
+theorem plan_separated_empty (src dst : Shape) (fwd A : Aff) (n ttol stol : Rat) (padding align : Option Int)
+    (p : Plan) (h : reprojectLinear src dst fwd A n ttol stol padding align = .ok p) (hnp : p.pasteOk = false)
+    (hs : 0 ≤ src.1 ∧ 0 ≤ src.2)
+    (hsep : (∀ c ∈ roiBoundary (⟨0, dst.1⟩, ⟨0, dst.2⟩) 2, (A.apply c).1 + padOr1 padding ≤ 0) ∨
+         (∀ c ∈ roiBoundary (⟨0, dst.1⟩, ⟨0, dst.2⟩) 2, (src.2 : Rat) ≤ (A.apply c).1 - padOr1 padding) ∨
+         (∀ c ∈ roiBoundary (⟨0, dst.1⟩, ⟨0, dst.2⟩) 2, (A.apply c).2 + padOr1 padding ≤ 0) ∨
+         (∀ c ∈ roiBoundary (⟨0, dst.1⟩, ⟨0, dst.2⟩) 2, (src.1 : Rat) ≤ (A.apply c).2 - padOr1 padding)) :
+    ROI.isEmpty p.roiSrc = true ∧ p.roiDst = emptyROI := by
+  obtain ⟨_, _, _, hc⟩ := reprojectLinear_cases h
+  rcases hc with ⟨_, hr⟩ | ⟨hp, _⟩
+  · have c := linear_separated_empty src dst A fwd (padOr1 padding) (normAlign align) hs hsep
+    rw [← hr] at c
+    exact c
+  · rw [hp] at hnp; exact absurd hnp (by simp)
+
+/-- On the paste path the regions are exactly `box_overlap` of the snapped transform (of the
+`k`-fold overview, scaled back up by `k`, when read-shrink is `k > 1`), so `box_covers`,
+`box_within` and `axis_disjoint_empty` apply to them. -/
+theorem plan_paste_is_box (src dst : Shape) (fwd A : Aff) (n ttol stol : Rat) (padding align : Option Int)
+    (p : Plan) (h : reprojectLinear src dst fwd A n ttol stol padding align = .ok p) (hp : p.pasteOk = true) :
+    canPaste A n stol ttol = .ok true ∧ (align = none ∨ align = some 0) ∧ (padding = none ∨ padding = some 0) ∧
+    ((p.readShrink = 1 ∧ boxOverlap src dst (snapAffine A ttol stol) = .ok (p.roiSrc, p.roiDst)) ∨
+     (p.readShrink ≠ 1 ∧ ∃ r' : ROI,
+        boxOverlap (zoomOutDim src.1 p.readShrink, zoomOutDim src.2 p.readShrink) dst
+          (snapAffine (Aff.scale (1 / (p.readShrink : Rat)) (1 / (p.readShrink : Rat)) * A) ttol stol)
+          = .ok (r', p.roiDst) ∧ p.roiSrc = scaledUpROI r' p.readShrink)) := by
+  obtain ⟨_, _, _, hc⟩ := reprojectLinear_cases h
+  rcases hc with ⟨hf, _⟩ | ⟨_, h1, h2, h3, h4⟩
+  · rw [hp] at hf; exact absurd hf (by simp)
+  · refine ⟨h1, ?_, h3, h4⟩
+    unfold normAlign at h2
+    split_ifs at h2 with c
+    · right; exact c
+    · left; exact h2
+
+/-! ## cross-CRS branch -/
+
+/-- The cross-CRS plan never pastes, its regions are `_relative_rois` with 5 points per side and
+default padding 1 (so `relative_within`, `separated_empty`, `nonlinear_covers_partial` apply),
+and its read-shrink is a positive integer. -/
+theorem nonlinear_plan (src dst : Shape) (back fwd : PtTr) (scaleAt : Rat × Rat → Rat × Rat)
+    (padding align : Option Int) (p : Plan)
+    (h : reprojectNonlinear src dst back fwd scaleAt padding align = .ok p) :
+    p.pasteOk = false ∧ 1 ≤ p.readShrink ∧
+    (p.roiSrc, p.roiDst) = relativeRois src dst back fwd 5 (padOr1 padding) (normAlign align) := by
+  unfold reprojectNonlinear at h
+  dsimp only at h
+  split_ifs at h with c
   · simp only [Except.ok.injEq] at h
     subst h
-    refine ⟨Or.inl (by simp), by simp, by push_cast; linarith⟩
-  · simp only [Except.ok.injEq] at h
-    have hs : 1 ≤ scale := not_lt.mp c2
-    have f1 := Rat.floor_le scale
-    have f2 : scale < (scale.floor : Rat) + 1 := by
-      have := Rat.lt_floor_add_one scale; push_cast at this; exact this
-    have key : (rs : Rat) = scale.floor ∨
-        ((rs : Rat) = (scale.floor : Rat) + 1 ∧ rabs (scale - scale.floor - 1) < tol ∧ scale - scale.floor > 1 / 2) := by
+    exact ⟨rfl, le_refl _, rfl⟩
+  · split at h
+    · simp at h
+    · rename_i rs hrs
+      simp only [Except.ok.injEq] at h
       subst h
-      simp only [maybeInt, splitFloat_nonneg scale (by linarith)]
-      split_ifs with c3 c4 c5
-      · right
-        have : (scale.floor : Rat) + 1 = ((scale.floor + 1 : Int) : Rat) := by push_cast; ring
-        rw [this, trunc_nonneg _ (by
-          have : (0 : Rat) ≤ scale.floor := by linarith [Rat.le_floor_iff.mp (show (1 : Int) ≤ scale.floor from by
-            rw [Rat.le_floor_iff]; exact_mod_cast hs)]
-          exact_mod_cast (by push_cast; linarith)), floor_intCast']
-        exact ⟨by push_cast; ring, c4, c3⟩
-      · left; rw [trunc_nonneg _ (by linarith)]
-      · left
-        have h0 : (0 : Rat) ≤ (scale.floor : Rat) := by
-          have : (1 : Int) ≤ scale.floor := by rw [Rat.le_floor_iff]; exact_mod_cast hs
-          have : (1 : Rat) ≤ (scale.floor : Rat) := by exact_mod_cast this
-          linarith
-        rw [trunc_nonneg _ h0, floor_intCast']
-      · left; rw [trunc_nonneg _ (by linarith)]
-    rcases key with k | ⟨k, k2, k3⟩
-    · rw [k]
-      refine ⟨?_, ?_, by linarith⟩
-      · by_cases ht : 0 < tol
-        · right; linarith
-        · -- non-positive tolerance: still never above the scale
-          by_cases h1 : (scale.floor : Rat) ≤ 1
-          · left; exact h1
-          · right
-            exfalso
-            exact absurd ht (by
-              intro; exact h1 (by linarith [ht]))
-      · exact le_trans (le_trans f1 (le_max_left _ _)) (le_max_right _ _)
-    · rw [k]
-      have : scale - scale.floor - 1 < 0 := by linarith
-      have k2' : -(scale - scale.floor - 1) < tol := by simpa [rabs, this] using k2
-      refine ⟨Or.inr (by linarith), ?_, by linarith⟩
-      exact le_trans (le_trans (by linarith) (le_max_right scale (scale + tol))) (le_max_right _ _)
+      exact ⟨rfl, read_shrink_pos_int _ _ _ hrs, rfl⟩
+
+/-! ## non-vacuity: concrete instances -/
+
+example : axisOverlap 10 10 2 (-3 / 2) = .ok (⟨0, 10⟩, ⟨0, 6⟩) := by decide +kernel
+example : axisOverlap 10 10 (-1) 7 = .ok (⟨0, 7⟩, ⟨0, 7⟩) := by decide +kernel
+example : relativeRois (100, 100) (50, 50) (linTr ⟨1, 0, 103, 0, 1, 10⟩) (linTr ⟨1, 0, -103, 0, 1, -10⟩) 2 1 (some 16)
+    = (emptyROI, emptyROI) := by decide +kernel
+example : pickReadScale (1 / 2) (1 / 8) = .ok 1 := by decide +kernel
 
 end OdcGeo.C03
